@@ -105,6 +105,18 @@ type Trans struct {
 	trusted map[string]bool // trusted / assumed things used
 	inlineDepth int
 	unsupported []string
+	verAlloc  map[string]string // heap array version -> allocation counter when the version was created
+	baseAlloc map[string]string
+	lastAlloc string
+}
+
+func (t *Trans) noteVersion(c string, alloc string) {
+	if t.verAlloc == nil {
+		t.verAlloc = map[string]string{}
+	}
+	if _, ok := t.verAlloc[c]; !ok {
+		t.verAlloc[c] = alloc
+	}
 }
 
 func (t *Trans) trust(s string) { t.trusted[s] = true }
@@ -133,6 +145,9 @@ func (t *Trans) get(st *State, name, sort string) string {
 	}
 	c := t.B.declConst(t.arrayEntryName(name, st.base), sort)
 	st.heap[name] = c
+	if a, ok := t.baseAlloc[st.base]; ok {
+		t.noteVersion(c, a)
+	}
 	return c
 }
 
@@ -142,11 +157,16 @@ func (t *Trans) set(st *State, name, sort, term string) {
 	}
 	c := t.B.define(name, sort, term)
 	st.heap[name] = c
+	t.noteVersion(c, st.alloc)
 }
 
 func (t *Trans) newState(base string) *State {
 	st := &State{heap: map[string]string{}, base: base, defers: map[*ssa.Defer]string{}, visited: map[*ssa.Range]string{}}
 	st.alloc = t.B.declConst("alloc#"+base, "Int")
+	if t.baseAlloc == nil {
+		t.baseAlloc = map[string]string{}
+	}
+	t.baseAlloc[base] = st.alloc
 	st.trace = t.B.declConst("trace#"+base, "(Array Int Event)")
 	st.ntrace = t.B.declConst("ntrace#"+base, "Int")
 	return st
@@ -166,6 +186,10 @@ func (t *Trans) havocAll(st *State, cur string, keepTrace bool) string {
 	st.heap = nh
 	st.base = base
 	st.alloc = t.B.declConst("alloc#"+base, "Int")
+	if t.baseAlloc == nil {
+		t.baseAlloc = map[string]string{}
+	}
+	t.baseAlloc[base] = st.alloc
 	cur = and(cur, fmt.Sprintf("(>= %s %s)", st.alloc, oldAlloc))
 	if !keepTrace {
 		st.trace = t.B.declConst("trace#"+base, "(Array Int Event)")
@@ -189,11 +213,20 @@ func mapVArr(m *types.Map) string     { return "MV:" + mangleType(m) }
 func arrOf(s string) string { return "(Array Int " + s + ")" }
 
 func (t *Trans) load(st *State, lv *LVal) string {
+	t.lastAlloc = st.alloc
 	switch lv.kind {
 	case lvField, lvCell:
-		return fmt.Sprintf("(select %s %s)", t.get(st, lv.arr, arrOf(t.B.sortOf(lv.typ))), lv.obj)
+		ver := t.get(st, lv.arr, arrOf(t.B.sortOf(lv.typ)))
+		if a, ok := t.verAlloc[ver]; ok {
+			t.lastAlloc = a
+		}
+		return fmt.Sprintf("(select %s %s)", ver, lv.obj)
 	case lvElem:
-		return fmt.Sprintf("(select (select %s %s) %s)", t.get(st, lv.arr, arrOf(arrOf(t.B.sortOf(lv.typ)))), lv.obj, lv.idx)
+		ver := t.get(st, lv.arr, arrOf(arrOf(t.B.sortOf(lv.typ))))
+		if a, ok := t.verAlloc[ver]; ok {
+			t.lastAlloc = a
+		}
+		return fmt.Sprintf("(select (select %s %s) %s)", ver, lv.obj, lv.idx)
 	case lvLocal:
 		return t.get(st, lv.arr, t.B.sortOf(lv.typ))
 	}
@@ -228,6 +261,12 @@ func isStructPtr(tp types.Type) (*types.Struct, types.Type, bool) {
 
 // typeFacts returns well-formedness facts for a value of Go type tp held in term v.
 func (t *Trans) typeFacts(st *State, v string, tp types.Type) string {
+	return t.typeFactsA(st.alloc, v, tp)
+}
+
+// typeFactsA: alloc is the allocation counter that bounds references inside the value.
+func (t *Trans) typeFactsA(alloc string, v string, tp types.Type) string {
+	st := &State{alloc: alloc}
 	switch u := tp.Underlying().(type) {
 	case *types.Basic:
 		if lo, hi, ok := intRange(tp); ok {
@@ -287,6 +326,7 @@ type frame struct {
 	fc     *FuncContract
 	site   ssa.CallInstruction
 	lets   map[string]cval
+	loopEff map[*loopInfo]*effects
 	prefix string // obligation label prefix of an inlined activation
 	silent bool   // no obligations (evaluation of contract expressions)
 }
@@ -481,6 +521,28 @@ func (f *frame) mergeEdges(es []edge) (string, *State) {
 			names[k] = true
 		}
 	}
+	mergeScalar := func(get func(s *State) string, sortK, name string) string {
+		first := get(es[0].st)
+		same := true
+		for _, e := range es[1:] {
+			if get(e.st) != first {
+				same = false
+			}
+		}
+		if same {
+			return first
+		}
+		return t.B.define(name, sortK, pick(get))
+	}
+	st.alloc = mergeScalar(func(s *State) string { return s.alloc }, "Int", "alloc")
+	st.trace = mergeScalar(func(s *State) string { return s.trace }, "(Array Int Event)", "trace")
+	st.ntrace = mergeScalar(func(s *State) string { return s.ntrace }, "Int", "ntrace")
+	if !sameBase {
+		if t.baseAlloc == nil {
+			t.baseAlloc = map[string]string{}
+		}
+		t.baseAlloc[st.base] = st.alloc
+	}
 	for _, k := range sortedKeys(names) {
 		if strings.HasPrefix(k, "L:") {
 			// private local: may be undefined on some edges
@@ -508,23 +570,8 @@ func (f *frame) mergeEdges(es []edge) (string, *State) {
 			continue
 		}
 		st.heap[k] = t.B.define(k, sortK, pick(func(s *State) string { return t.get(s, k, sortK) }))
+		t.noteVersion(st.heap[k], st.alloc)
 	}
-	mergeScalar := func(get func(s *State) string, sortK, name string) string {
-		first := get(es[0].st)
-		same := true
-		for _, e := range es[1:] {
-			if get(e.st) != first {
-				same = false
-			}
-		}
-		if same {
-			return first
-		}
-		return t.B.define(name, sortK, pick(get))
-	}
-	st.alloc = mergeScalar(func(s *State) string { return s.alloc }, "Int", "alloc")
-	st.trace = mergeScalar(func(s *State) string { return s.trace }, "(Array Int Event)", "trace")
-	st.ntrace = mergeScalar(func(s *State) string { return s.ntrace }, "Int", "ntrace")
 	// defers
 	dset := map[*ssa.Defer]bool{}
 	for _, e := range es {
